@@ -16,11 +16,11 @@ var (
 
 // Rethrow rethrows a panic.
 func Rethrow(link *Defer) {
-	if ptr := excepKey.Get(); ptr != nil {
+	if p := getPanic(); p != nil {
+		panicEnter(p, link)
 		if link == nil {
-			TracePanic(*(*any)(ptr))
+			TracePanic(p.v)
 			debug.PrintStack(2)
-			c.Free(ptr)
 			c.Exit(2)
 		} else {
 			c.Siglongjmp(link.Addr, 1)
